@@ -23,7 +23,7 @@ def plans(ctx):
             R.Plan("t1c", "S_t1c", emit_mod=25, max_inst=1, max_pw=2),
             R.Plan("t1d", "S_t1d", emit_mod=3, max_inst=1, max_pw=3),
             R.Plan("noxq", "S_noxq", emit_mod=3, max_inst=3, max_pw=2, stray=2, junk=True),
-            R.Plan("unk", "S_unk", emit_mod=20, max_inst=1, max_pw=2, stray=1),
+            R.Plan("unk", "S_unk", emit_mod=60, max_inst=1, max_pw=2, stray=1),
             R.Plan("drone", "S_drone", emit_mod=2, max_inst=2, max_pw=2, stray=1),
             R.Plan("pref", "S_pref", emit_mod=20, max_inst=1, max_pw=2, stray=1),
             R.Plan("none", "S_none", emit_mod=1, max_inst=2, max_pw=2, stray=1),
